@@ -168,7 +168,7 @@ def _arclist_chunk(params, lo, hi):
     return r
 
 
-LABELS = [["s", "a", "b", "t"], [None, "x", (1, 2), 2.5], [1000, "node-b", (1, (2, 3)), 2.5], [10, "x", (1, 2), 2.5], [("n", 0), ("n", 1), ("n", 2), ("n", 3)], [3, 2, 1, 0]]
+LABELS = [["s", "a", "b", "t"], [None, "x", (1, 2), 2.5], [-1, -2, (1, (2, 3)), 1000], [10, "x", (1, 2), 2.5], [("n", 0), ("n", 1), ("n", 2), ("n", 3)], [3, 2, 1, 0]]
 
 
 def _label_chunk(params, lo, hi):
@@ -199,7 +199,7 @@ def jobs(tier, seed):
         js.append(Job(f"n6_unit_{k}arcs", comb(30, k), _unit_chunk, (6, k, (0, 1) if k <= 5 else (0,)), describe="unit-capacity digraphs on 6 nodes, s=0,t=5 (contains the smallest witnesses of the residual-arc defect)"))
     for L in (1, 2, 3, 4):
         js.append(Job(f"arclists_len{L}", len(ARC_OPTS) ** L, _arclist_chunk, L, describe="ordered arc lists with parallel/anti-parallel arcs, caps {1,2}"))
-    nl = len(LABELS) if tier == "thorough" else 3  # quick: strings, a mixed set in which node 0 is labelled None, big int / long string / nested tuple
+    nl = len(LABELS) if tier == "thorough" else 3  # quick: strings, a mixed set in which node 0 is labelled None, -1 and -2 (equal hashes) / nested tuple / big int
     js.append(Job("n4_labels_zero_caps", 3**12 * nl, _label_chunk, nl, describe="4 nodes, pair in {absent, cap0, cap1}, string/tuple/mixed labels, (s,t) rotating over (0,3),(3,0),(1,2) with the graph code"))
     # capacities {1,2} on 6 nodes: partial cancellation on an anti-parallel pair needs a 6-node, 8-arc network
     for k in (6, 7, 8):
